@@ -37,7 +37,12 @@ def check_cache(
     # Key on the underlying parameter names and include the output names, so
     # that nodes sharing one function but wired differently (renamed inputs,
     # different output names) never serve each other's entries.
+    # A gate's cached decision names one of ITS targets, so the (ordered) target list
+    # is part of its identity as well.
     identity = f"{node.definition_hash}:{node.outputs!r}"
+    targets = getattr(node, "targets", None)
+    if targets is not None:
+        identity += f":{[str(t) for t in targets]!r}"
     cache_key = compute_cache_key(identity, node.map_inputs_to_params(inputs))
     if not cache_key:
         return "", None
